@@ -504,7 +504,12 @@ def node_init_lemma(reg, repo):
                     got = [ast.unparse(s) for s in f.body if not (isinstance(s, ast.Expr) and isinstance(s.value, ast.Constant))]
                     args = [a.arg for a in f.args.args]
     want = ["self.id = identifier", "self.seq = ''", "self.seq_len = 0", "self.start = set()", "self.end = set()", "self.visited = False", "self.tags = dict()"]
-    o = Oblig("gaftools.gfa:lemma::Node.__init__-as-modelled", "lemma", [], z3.BoolVal(got == want and args == ["self", "identifier"]))
+    if got != want or args != ["self", "identifier"]:
+        # a constructor that differs from the model is not by itself a violation of any property (an extra attribute is harmless): the contracts
+        # that build nodes are then undecided (exit 2) and the bounded engine decides.  (Until the third round this was reported as a refuted
+        # obligation, which would have been a false alarm for a harmless extra attribute - DESIGN 13.8.)
+        raise Unsupported("Node.__init__ differs from the constructor model of the contracts (types.Node.ctor / Node.defaults): %s" % [x for x in (got or []) if x not in want][:3])
+    o = Oblig("gaftools.gfa:lemma::Node.__init__-as-modelled", "lemma", [], z3.BoolVal(True))
     o.inputs = []
     return [o]
 
